@@ -30,6 +30,12 @@ impl AsRefSpecImpl<[u8]> for str {
 impl AsRefSpecImpl<[u8]> for String {
     open spec fn aref(&self) -> &[u8] { string_ref(self) }
 }
+impl AsRefSpecImpl<str> for String {
+    open spec fn aref(&self) -> &str { string_str(self) }
+}
+impl AsRefSpecImpl<str> for str {
+    open spec fn aref(&self) -> &str { self }
+}
 impl<T, const N: usize> AsRefSpecImpl<[T]> for [T; N] {
     open spec fn aref(&self) -> &[T] { arr_ref(self) }
 }
